@@ -275,3 +275,39 @@ pub fn run(tier: Tier) -> i32 {
     rep.guard(infeasible.load(Ordering::Relaxed) > 0, "no infeasible (one frame per state) case");
     rep.finish()
 }
+
+pub fn replay(v: &serde_json::Value) -> i32 {
+    let times: Vec<(f64, f64)> = v["times_frames"].as_array().cloned().unwrap_or_default().iter().map(|x| (x[0].as_f64().unwrap_or(-1.0), x[1].as_f64().unwrap_or(-1.0))).collect();
+    let ns = v["nstate"].as_u64().unwrap_or(1) as usize;
+    let means = [0.2, 1.5, 10.0, 0.5, 60.0];
+    let params: Vec<MeanVari> = match v["params"].as_array() {
+        Some(p) => p.iter().map(|x| MeanVari(x[0].as_f64().unwrap_or(1.0), x[1].as_f64().unwrap_or(1.0))).collect(),
+        None => (0..times.len() * ns).map(|i| MeanVari(means[i % means.len()], 1.0 + (i % 2) as f64)).collect(),
+    };
+    if times.is_empty() {
+        println!("{}", v);
+        println!("end-to-end case: re-run `./run C09 quick`; the file lists the literal label lines");
+        return 0;
+    }
+    let lab = labels::parse(&labels::corpus()[1]);
+    let r = catch(|| {
+        let l = Labels::new(vec![lab.clone(); times.len()], Some(times.clone())).unwrap();
+        DurationEstimator::new(params.clone(), ns).create_with_alignment(l.times())
+    });
+    match r {
+        Err(p) => {
+            println!("replay: panic {}", p);
+            1
+        }
+        Ok(d) => match check_alignment(&times, &d, &params, ns) {
+            Ok(()) => {
+                println!("replay: holds, durations {:?}", d);
+                0
+            }
+            Err((k, what)) => {
+                println!("replay: {}: {} (durations {:?})", k, what, d);
+                1
+            }
+        },
+    }
+}
